@@ -17,3 +17,13 @@ package cmd
 //@   ensures[C06] err == nil && scrtmOK && f.AddTdx ==> exists(e, *endorse.Context, e != nil && e.Tdx != nil && e.Tdx.Svn == scrtmVer, ec)
 //@   ensures[C06] err == nil && !f.AddSnp ==> exists(e, *endorse.Context, e != nil && e.SevSnp == nil, ec)
 //@   ensures[C06] err == nil && !f.AddTdx ==> exists(e, *endorse.Context, e != nil && e.Tdx == nil, ec)
+
+// C06 (the signed document describes exactly the supplied inputs): the endorse command loads every input file it was
+// given, independently of the others - the firmware image from --uefi, the SVSM image when --svsm_path is given, and a
+// full-length (48-byte) SVSM measurement whenever --svsm_snp_measurement_path is given.
+//@ func (*endorseCommand).InitContext
+//@   requires f != nil
+//@   modifies *
+//@   ensures[C06] err == nil ==> ecOf(ctx) != nil && val(ecOf(ctx).Image) == fsFile[f.UefiPath]
+//@   ensures[C06] err == nil && f.SvsmPath != "" ==> val(ecOf(ctx).SvsmImage) == diskData[f.SvsmPath]
+//@   ensures[C06] err == nil && f.SvsmSnpMeasurementPath != "" ==> len(ecOf(ctx).SvsmSnpMeasurement) == 48
